@@ -229,7 +229,13 @@ func vhC14(a []int, twin bool) {
 		vReach("C14.end")
 		return
 	}
-	if ch.startFails && ch.outPipe != nil && ch.errPipe != nil {
+	startAttempted := false
+	for _, e := range vhC14Events {
+		if e == "start" {
+			startAttempted = true
+		}
+	}
+	if ch.startFails && startAttempted {
 		vAssert("C14.start-failure-is-an-error", err != nil && res == nil)
 	}
 	if err == nil {
